@@ -60,3 +60,14 @@ claim("C15", "proof",
       "C++ front end covers them. grid_to_graph is bounded (not proved). A1 for int(a/b).",
       "deductive: symbolic execution of real source + SMT with in-run proved lemma schemas; bounded exhaustive stand-in for grid_to_graph",
       "DESIGN.md 3/C15")
+claim("C20", "proof",
+      "For each listed entry point the contract 'raises iff the input is invalid' is checked: dimension mismatch for density, "
+      "D, per-environment density, cell volume, node volume, edge surface/distance, state, t_sample, time step, t_max, sampling "
+      "interval, set_state (with state-unchanged frame) over fully symbolic quantities; non-positive grid sizes and wrong "
+      "cell_env length over symbolic sizes; positions outside a symbolic grid in 3 forms for get/set_state, get/set_chemostat, "
+      "get_cell_index, are_neighbors; graph node index; environment index outside the network's list. Finite classes "
+      "(unknown / doubly-aliased / missing keys of the 11 dictionary readers, unit symbols, axes, boundary modes, sampling "
+      "policies, processing modes, environment names, unknown species in 5 accessors) are enumerated exhaustively on the untouched code.",
+      "Rate constants of the wrong order are in C19, unit text in C18, coarse-graining maps in C16, trajectory positions in C17. "
+      "Structure enumerated (small networks). A1.",
+      "deductive: symbolic execution of real source + SMT; finite exhaustive enumeration for key/mode classes", "DESIGN.md 3/C20")
